@@ -206,9 +206,6 @@ Proof.
   - intros H; inversion H; subst. lia.
 Qed.
 
-Definition dec_app (tl : list Z) (r : coder * lzwin * outcome unit * rdec * probs) :=
-  (fst (fst r), rd_app (snd (fst r)) tl, snd r).
-
 (* one decode call that did not fetch past the end is the same call over the longer input *)
 Theorem lzma_decode_mono c w d t tl c1 w1 st d1 t1 :
   lzma_decode c w d t = Ok (c1, w1, st, d1, t1) -> rd_over d1 = rd_over d ->
